@@ -358,7 +358,9 @@ def _apply_macros(body_lines, macros) -> List[str]:
     if len(body_lines) == 0:
         return []
     body = "\n".join(body_lines)
-    for macro_key, macro_value in macros:
+    # Substitute longer keys first, so that a key which is a prefix of another key
+    # (e.g. "q" and "q0") does not clobber the longer one.
+    for macro_key, macro_value in sorted(macros, key=lambda m: -len(m[0])):
         macro_value = macro_value.strip(Symbols.PREAMBLE_DEFINE_BRACKETS)
         body = body.replace(f"{Symbols.MACRO_START}{macro_key}", macro_value)
     return list(body.split("\n"))
